@@ -309,6 +309,12 @@ def build_cases(tier="quick"):
     from contracts import c10
 
     ref += rewrap(PROP, c10.logs_cases(), "bound-warning-is-emitted")
+    # the query answered for a path is that path's own (never a file left by another test or an earlier run) (C05's unit)
+    ref += rewrap(PROP, c05.timeout_cases(), "query-of-this-path")
+    # what a test reads back from a call is the callee's return data and nothing beyond it (C09's unit)
+    from contracts import c09
+
+    ref += rewrap(PROP, c09.returndata_cases(), "return-area", lambda c: "copy_returndata" in c.unit)
     return panic_cases() + fail_flag_cases() + handler_cases() + setup_cases() + ref
 
 
